@@ -101,13 +101,26 @@ BACKENDS = {
     'dir-memmode': ('dir', 'pickle', {'memmode': 'r'}),
     'sql': ('sql', 'sql', {}),
     'sql-memory': ('sqlmem', 'sql', {}),
+    # the same stores addressed by a name relative to the working directory at open time
+    'dir-relname': ('dir', 'pickle', {}),
+    'file-relname': ('file', 'pickle', {}),
+    'sql-relname': ('sql', 'sql', {}),
+    # a source-text file archive whose name is given without the .py suffix klepto appends
+    'file-source-bare': ('file', 'source', {'serialized': False}),
 }
+
+RELNAME = ('dir-relname', 'file-relname', 'sql-relname')
 
 PERSISTENT = ('file', 'dir', 'sql')
 
 
 def location(backend, root, name='arch'):
     fam, enc, kw = BACKENDS[backend]
+    if backend in RELNAME:
+        # relative to the working directory, which is `root` while the store is opened (see open_backend)
+        return {'file': name + '.pkl', 'dir': name, 'sql': 'sqlite:///%s.db?table=memo' % name}[fam]
+    if backend == 'file-source-bare':
+        return os.path.join(root, name)
     if fam == 'file':
         ext = {'pickle': '.pkl', 'json': '.json', 'source': '.py'}[enc]
         return os.path.join(root, name + ext)
@@ -120,7 +133,21 @@ def location(backend, root, name='arch'):
     return name
 
 
+def _cwd():
+    try:
+        return os.path.realpath(os.getcwd())
+    except OSError:          # the directory this process stood in has been removed
+        return None
+
+
 def open_backend(backend, root, name='arch', cached=False):
+    if backend in RELNAME and _cwd() != os.path.realpath(root):
+        cwd = _cwd() or os.path.dirname(root)
+        os.chdir(root)
+        try:
+            return open_backend(backend, root, name, cached)
+        finally:
+            os.chdir(cwd)
     import klepto.archives as ka
     fam, enc, kw = BACKENDS[backend]
     loc = location(backend, root, name)
